@@ -141,6 +141,11 @@ var c19Corpus = []c19Case{
 	{"corpus", `tout jsonl "[1,2]\n[3,4]" -> [ *9 *1 ]`},
 	{"corpus", `tout jsonl -> [ *9223372036854775807 *1 ]`},
 	{"corpus", `tout jsonc "[1,2][3,4]" -> [ *9 *1 ]`},
+	{"corpus", `tout generic "a b c\n1 2 3\n\n4 5 6" -> [ b ]`},
+	{"corpus", `tout generic "a b c\n1 2 3\n4\n5 6 7" -> [ b ]`},
+	{"corpus", `tout csv "a,b,c\n1,2,3\n4,5\n6,7,8" -> [ c ]`},
+	{"corpus", `tout csv "a,b,c\n1,2,3\n\n6,7,8" -> [ b a ]`},
+	{"corpus", `tout jsonl "[\"a\",\"b\"]\n[\"1\"]\n[\"2\",\"3\"]" -> [ b ]`},
 	{"corpus", `history`},
 	{"corpus", `out -> regexp 007`},
 	{"corpus", `murex-docs 100`},
@@ -191,6 +196,56 @@ func (c19) Gen(seed int64, tier string, emit func(any)) {
 			}
 			opts := c19Pick(r, []string{"", `,AllowAdditional:true`, `,StrictFlagPlacement:true`, `,IgnoreInvalidFlags:true`})
 			c = c19Case{"args", fmt.Sprintf(`function c19fa { args v %%{Flags:{%s}%s}; out $v }; c19fa %s`, ft, opts, c19Args(r, 4))}
+		case k == 9 && r.Intn(2) == 0: // ragged tables indexed by heading name, column letter or row
+			types := []string{"generic", "csv", "jsonl", "str"}
+			ty := c19Pick(r, types)
+			rows := 2 + r.Intn(4)
+			var lines []string
+			sep := " "
+			if ty == "csv" {
+				sep = ","
+			}
+			heads := []string{"a", "b", "c", "d"}
+			width := 2 + r.Intn(3)
+			for i := 0; i < rows; i++ {
+				w := width
+				if i > 0 {
+					w = r.Intn(width + 2) // rows shorter (even empty) or longer than the heading row
+				}
+				cells := make([]string, w)
+				for j := range cells {
+					if i == 0 {
+						cells[j] = heads[j%len(heads)]
+					} else {
+						cells[j] = fmt.Sprintf("%d", i*10+j)
+					}
+				}
+				line := strings.Join(cells, sep)
+				if ty == "jsonl" {
+					q := make([]string, len(cells))
+					for j, c := range cells {
+						q[j] = `\"` + c + `\"`
+					}
+					line = "[" + strings.Join(q, ",") + "]"
+				}
+				lines = append(lines, line)
+			}
+			var keys []string
+			for n := 1 + r.Intn(3); n > 0; n-- {
+				switch r.Intn(4) {
+				case 0:
+					keys = append(keys, "*"+c19Pick(r, []string{"A", "B", "C", "D", "E", "z"}))
+				case 1:
+					keys = append(keys, "*"+c19Pick(r, c19Nums))
+				default:
+					keys = append(keys, c19Pick(r, []string{"a", "b", "c", "d", "e", "nosuch"}))
+				}
+			}
+			not := ""
+			if r.Intn(5) == 0 {
+				not = "!"
+			}
+			c = c19Case{"ragged-table", fmt.Sprintf(`tout %s "%s" -> %s[ %s ]`, ty, strings.Join(lines, `\n`), not, strings.Join(keys, " "))}
 		default: // named pipe sequences
 			// (reading a named pipe nobody closes blocks by design, so reads are not generated)
 			ops := []string{"pipe c19np", "!pipe c19np", "pipe c19nq", "!pipe c19nq", "out x -> <c19np>", "pipe --file c19np /nonexistent/x", "!pipe null", "runtime --named-pipes -> null"}
